@@ -1,7 +1,7 @@
 (* C01 - the structural induction over widget trees that assembles the per-constructor lemmas. *)
 From Coq Require Import ZArith List Bool Lia ZifyBool.
 Import ListNotations.
-From Urwid Require Import WidgetDims WidgetDimsProofs WidgetDimsFrame.
+From Urwid Require Import WidgetDims WidgetDimsProofs WidgetDimsFrame WidgetDimsOverlay.
 Open Scope Z_scope.
 
 (* ------------------------------------------------------------------ trees: structural induction *)
@@ -36,7 +36,13 @@ Fixpoint proved_fragment (w : widget) : bool :=
   | WPile items _ => proved_fragment_p items && (match items with PNil => false | _ => true end)
   | WColumns _ _ _ _ => false
   | WFrame body hd ft _ => proved_fragment body && proved_fragment_o hd && proved_fragment_o ft
-  | WOverlay _ _ _ => false
+  | WOverlay t b p =>
+      proved_fragment t && proved_fragment b
+      && (match ov_wt p with WGiven _ | WRelative _ => true | _ => false end)      (* not a fixed top widget *)
+      && (match ov_ht p with
+          | HRelative pct => (pct <=? 100) && (match ov_minh p with Some m => 0 <=? m | None => true end)
+          | _ => true
+          end)
   end
 with proved_fragment_p (l : pitems) : bool :=
   match l with PNil => true | PCons w _ _ r => proved_fragment w && proved_fragment_p r end
@@ -78,7 +84,14 @@ Proof.
     + apply IHb; auto; lia.
     + apply IHh; auto; lia.
     + apply IHf; auto; lia.
-  - (* overlay: outside the fragment *) intros; discriminate.
+  - (* overlay *) intros t IHt b IHb p Hw Hf Hl. destruct Hl as [L1 L2].
+    apply overlay_good; try lia.
+    + apply IHt; auto; lia.
+    + apply IHb; auto; lia.
+    + unfold overlay_given. unfold overlay_top_ok in Hw.
+      destruct (ov_wt p) eqn:EW; try (exfalso; lia);
+        (split; [cbn in *; lia|]); repeat (split; [lia|]);
+        destruct (ov_ht p); auto; destruct (ov_minh p); lia.
   - (* PNil *) intros ps _ _ _. split; constructor.
   - (* PCons *) intros w IHw k n r IHr ps Hw Hf Hl. cbn [wf_p proved_fragment_p leaves_ok_p denote_p] in *.
     destruct Hl as [Hl1 Hl2].
